@@ -92,7 +92,7 @@ fn gen_frames(rng: &mut Rng, k: usize) -> Vec<String> {
     let mut v: Vec<String> = Vec::new();
     while v.len() < k {
         let icao = rng.below(1 << 24) as u32;
-        let f = match rng.below(12) {
+        let f = match rng.below(13) {
             0..=3 => world::unhex(*rng.pick(REAL_FRAMES)),
             4 => world::df4(icao, 0, rng.irange(0, 40000) as i32),
             5 => world::df11(icao, 5),
@@ -116,6 +116,19 @@ fn gen_frames(rng: &mut Rng, k: usize) -> Vec<String> {
                 let mut f = world::df4(icao, 0, 12000);
                 f[2] ^= 1;
                 f
+            }
+            11 => {
+                // a short reply padded to 14 bytes by a relay, or a frame with a
+                // stray trailing byte (the decoder reads what the format announces)
+                if rng.chance(0.5) {
+                    let mut f = world::df4(icao, 0, 21000);
+                    f.resize(14, 0);
+                    f
+                } else {
+                    let mut f = world::df17_identification(icao, 4, 3, "PAD1090");
+                    f.push(rng.byte());
+                    f
+                }
             }
             _ => world::df17_identification(icao, 4, 3, "SIM1090"),
         };
